@@ -348,6 +348,7 @@ pub fn exec_traced<'a>(ctx: &'a mut Ctx, sc: &'a Value, plan: &Value, tag: &str)
                     let name = tracer.clients[c].threads[&tid].cur.as_ref().map(|s| s.name).unwrap_or("?");
                     let kind = match &action {
                         Action::Errno(e) => format!("errno.{}@{}", errno_name(*e), name),
+                        Action::ErrnoPersist(e) => format!("errno_persistent.{}@{}", errno_name(*e), name),
                         Action::Short(_) => format!("short_write@{}", name),
                         Action::ShortThenErr(_, e) => format!("short_then_{}@{}", errno_name(*e), name),
                         Action::KillEntry | Action::KillExit => "kill".to_string(),
@@ -956,8 +957,17 @@ fn enumerate_faults(sc: &Value, census: &Sub, tier: &str) -> Vec<Value> {
                 }
             }
             _ => {
-                for e in errnos_for(&ev.sys, tier) {
-                    out.push(f(Action::Errno(e)));
+                let es = errnos_for(&ev.sys, tier);
+                for e in &es {
+                    out.push(f(Action::Errno(*e)));
+                }
+                // the fault does not go away: this call and every later call of the same kind fail (disk stays full,
+                // device stays broken) - loops that retry forever show up as hangs
+                if let Some(e) = es.first() {
+                    let first_of_kind = !evs[..idx].iter().any(|p| p.sys.nr == ev.sys.nr);
+                    if first_of_kind || tier != "quick" {
+                        out.push(f(Action::ErrnoPersist(*e)));
+                    }
                 }
                 if ev.sys.data_write {
                     let len = if ev.ret > 0 { ev.ret as u64 } else { ev.sys.len.unwrap_or(0) };
@@ -1007,9 +1017,29 @@ pub fn run_scenario(ctx: &mut Ctx, _spec: &CheckSpec, sc: &Value, run_id: &str) 
     };
     match kind.as_str() {
         "enumerate" => {
-            let census_plan = json!({"faults":[],"schedule":{"policy":"first"}});
-            let census = run_plan(ctx, sc, &census_plan, &format!("{run_id}c"));
-            let faults = enumerate_faults(sc, &census, &tier);
+            let mut census_plan = json!({"faults":[],"schedule":{"policy":"first"}});
+            let mut census = run_plan(ctx, sc, &census_plan, &format!("{run_id}c"));
+            let mut prefault: Option<Value> = None;
+            if let Some(call) = sc["plan"]["prefault_call"].as_str() {
+                // a first fault that stays in every execution of this run: the named call fails, and the crash points
+                // of the error path that follows are enumerated
+                if let Some(ev) = census.events.iter().find(|e| e.client == 0 && e.op.is_some() && e.sys.name.starts_with(call)) {
+                    let pf = json!({"client":0,"at":ev.ord,"action":{"a":"errno","e":sc["plan"]["prefault_errno"].as_i64().unwrap_or(18)}});
+                    census_plan = json!({"faults":[pf.clone()],"schedule":{"policy":"first"}});
+                    let h = census.harness.clone();
+                    absorb(&mut out, census, false);
+                    if h.is_some() {
+                        return out;
+                    }
+                    census = run_plan(ctx, sc, &census_plan, &format!("{run_id}cp"));
+                    prefault = Some(pf);
+                }
+            }
+            let mut faults = enumerate_faults(sc, &census, &tier);
+            if let Some(pf) = &prefault {
+                let at = pf["at"].as_u64().unwrap_or(0);
+                faults.retain(|f| f["at"].as_u64().unwrap_or(0) > at);
+            }
             let census_trace = census.trace.clone();
             if census.harness.is_some() {
                 absorb(&mut out, census, false);
@@ -1023,7 +1053,10 @@ pub fn run_scenario(ctx: &mut Ctx, _spec: &CheckSpec, sc: &Value, run_id: &str) 
             let pairs = sc["plan"]["pairs"].as_bool().unwrap_or(false);
             let mut npairs = 0u64;
             for (i, f) in faults.iter().enumerate() {
-                let plan = json!({"faults":[f],"schedule":{"policy":"first"}});
+                let plan = match &prefault {
+                    Some(pf) => json!({"faults":[pf, f],"schedule":{"policy":"first"}}),
+                    None => json!({"faults":[f],"schedule":{"policy":"first"}}),
+                };
                 let sub = run_plan(ctx, sc, &plan, &format!("{run_id}f{i}"));
                 // fault pairs (thorough): a second errno on a call that the first fault's error path goes on to make
                 let mut second: Vec<Value> = Vec::new();
@@ -1245,8 +1278,14 @@ fn gen_c03(rng: &mut Rng, r: u64) -> Value {
     for fl in PURE {
         post.push(json!({"k":"audit","bin":fl.0,"mode":fl.1,"what":["metadata","read","read_hash","exists"]}));
     }
+    let mut plan = json!({"kind":"enumerate","mode":"kill"});
+    if r % 3 == 2 {
+        // the publishing rename fails (another filesystem, permissions, ...): whatever the error path does instead is crash-tested
+        plan["prefault_call"] = json!("rename");
+        plan["prefault_errno"] = json!(*rng.pick(&[libc::EXDEV, libc::EACCES, libc::EIO, libc::ENOSPC]));
+    }
     json!({"keys":keys,"vals":vals,"prelude":prelude,"clients":[{"bin":f.0,"steps":[v]}],"post":post,
-           "plan":{"kind":"enumerate","mode":"kill"},"oracle":"fault"})
+           "plan":plan,"oracle":"fault"})
 }
 
 fn gen_c04(rng: &mut Rng, r: u64) -> Value {
